@@ -112,6 +112,10 @@ func checkC01(e *Env) {
 	signedMessageCoverage(e)
 	curveHashTable(e)
 	c15Obligations(e, "C01 inherits")
+	// the header value that enters the signed message is the value itself: a
+	// normalisation on the signing side that the parsed exchange does not show
+	// lets unsigned bytes ride on a valid signature (seed C01-f)
+	e.requireResult("RESULT", e.fn("signedexchange.normalizeHeaderValues"), gate.Outcome{Kind: gate.AnyReturn}, 0, `call:strings.Join(param:values,const:",")`, "the field values as they are, joined with ','")
 }
 
 // closureEntry: a MakeClosure whose body encodes valuePat through valueE and
